@@ -397,6 +397,13 @@ Definition op_receive (s : st) (f : ltxrec) : outcome * st :=
   if negb (is_snapshot f) && negb (extends_pos s f) then (Failed, s)
   else op_apply (with_dir s (if is_snapshot f then [f] else ltxdir s ++ [f])) f true.
 
+(* processLTXStreamFrame with the body check (after the F14 repair the streamed file is verified
+   before it is renamed into the log): a file whose body does not verify changes nothing *)
+Definition op_receive_checked (s : st) (f : ltxrec) (body_ok : bool) : outcome * st :=
+  if negb (is_snapshot f) && negb (extends_pos s f) then (Failed, s)
+  else if negb body_ok then (Failed, s)
+  else op_receive s f.
+
 (* the forwarding endpoint: WriteLTXFileAt validates header and body before renaming; then apply *)
 Definition op_forward (s : st) (f : ltxrec) (body_ok : bool) : outcome * st :=
   if negb (is_snapshot f) && negb (extends_pos s f) then (Failed, s)
@@ -499,6 +506,22 @@ Fixpoint nl_eqb (a b : list N) : bool :=
   match a, b with [], [] => true | x :: a', y :: b' => (x =? y) && nl_eqb a' b' | _, _ => false end.
 Fixpoint nll_eqb (a b : list (list N)) : bool :=
   match a, b with [], [] => true | x :: a', y :: b' => nl_eqb x y && nll_eqb a' b' | _, _ => false end.
+
+(* replica timelines (C01): only [code; txid; chk; pageN] is observable through tx events *)
+Definition obs_short (code : N) (s : st) : list N := [code; txid s; chk s; pageN s].
+Fixpoint run_hist_short (s : st) (groups : list (list op)) : list (list N) :=
+  match groups with
+  | [] => []
+  | g :: r => let '(code, s') := run_group s g in obs_short code s' :: run_hist_short s' r
+  end.
+Definition mismatches_short (cases : list (N * list (list op) * list (list N))) : list nat :=
+  let fix go (i : nat) (cs : list (N * list (list op) * list (list N))) : list nat :=
+    match cs with
+    | [] => []
+    | (lock, groups, obs) :: rest =>
+      if nll_eqb (run_hist_short (set_writeable (init lock) false) groups) obs then go (S i) rest else i :: go (S i) rest
+    end in
+  go 0%nat cases.
 
 (* a case: lock page number, groups of ops (one group per harness step), observed rows *)
 Definition mismatches (cases : list (N * list (list op) * list (list N))) : list nat :=
